@@ -161,6 +161,18 @@ Proof.
   induction l0 as [|y l0 IH0]; [reflexivity|]. cbn [insert_sorted]. rewrite !E, IH0. reflexivity.
 Qed.
 
+(* the names of the listing of infos are the sorted names, when every entry points to a node *)
+Lemma dir_infos_names h ch :
+  (forall name c, In (name, c) ch -> get h c <> None) -> map (@fi_name) (dir_infos h ch) = dir_names ch.
+Proof.
+  intros Hall. unfold dir_infos, dir_names.
+  rewrite <- (sort_by_map (fun x => x) (@fi_name)). f_equal.
+  induction ch as [|[name c] ch IH]; [reflexivity|]. cbn [flat_map map fst]. rewrite map_app.
+  destruct (get h c) as [nd|] eqn:Eg.
+  - cbn [map app]. f_equal; [now destruct nd|]. apply IH. intros n' c' Hin. apply (Hall n' c'). now right.
+  - exfalso. apply (Hall name c); [now left|exact Eg].
+Qed.
+
 (* a strictly sorted list is determined by its elements *)
 Lemma sorted_perm_unique (A : Type) (key : A -> str) : forall l1 l2 : list A,
   StronglySorted (klt key) l1 -> StronglySorted (klt key) l2 -> Permutation l1 l2 -> l1 = l2.
@@ -268,6 +280,20 @@ Proof.
     unfold entry_info. cbn [fst snd]. rewrite Hg. reflexivity.
 Qed.
 
+(* the handle OpenFile returns has not read its directory yet *)
+Lemma open_file_fresh s v vi p flag perm s1 f :
+  open_file s v vi p flag perm = (s1, Datatypes.inr f) -> hd_dir_infos f = None.
+Proof.
+  unfold open_file. intros H.
+  repeat match type of H with
+  | (if ?b then _ else _) = _ => destruct b
+  | match ?x with _ => _ end = _ => destruct x eqn:?
+  | (_, Datatypes.inl _) = (_, Datatypes.inr _) => discriminate
+  | (_, Datatypes.inr _) = (_, Datatypes.inr _) => injection H as _ <-; reflexivity
+  | (let '(_, _) := ?x in _) = _ => destruct x eqn:?
+  end.
+Qed.
+
 (* ReadDir of the model: OpenFile(O_RDONLY) then MemFile.ReadDir(-1) *)
 Theorem read_dir_spec s v p s1 f c ch m :
   p <> [] ->
@@ -276,8 +302,9 @@ Theorem read_dir_spec s v p s1 f c ch m :
   get (f_heap s1) c = Some (NDir ch m) ->
   read_dir s v p = RInfos (dir_infos (f_heap s1) ch) None.
 Proof.
-  intros Hp Ho Hn Hnm Hg. unfold read_dir. rewrite Ho. unfold f_read_dir.
-  rewrite Hnm, Hn, Hg. destruct p; [congruence|]. reflexivity.
+  intros Hp Ho Hn Hnm Hg. unfold read_dir. rewrite Ho. unfold f_read_dir, dir_read.
+  rewrite Hnm, Hn, Hg, (open_file_fresh _ _ _ _ _ _ Ho). destruct p; [congruence|].
+  rewrite dir_batch_all by reflexivity. reflexivity.
 Qed.
 
 (* the handle OpenFile returns is named after the path it was given *)
